@@ -169,7 +169,7 @@ def make_source(rng, cid, kind, n, adapt="none", hint=None, tail=None):
     if kind in ("array", "arrref"):
         n = min(n, 8)
     if kind == "range":
-        start = rng.choice([0, 1, 5, 1000])
+        start = rng.choice([0, 1, 5, 1000, 1 << 63, MAXW - n, MAXW - n - 1, MAXW - n - rng.randint(0, 40)])
         return Case(cid, kind, start=start, stop=start + n)
     if kind in ("iter", "iterref"):
         vals = distinct_vals(rng, n)
